@@ -102,6 +102,7 @@ def step (st : St) (line : String) : St × String :=
     match Sym.parsePriv (o.bytes "sk") with
     | some sk => (st, s!"ok addr={hx (address Sym (Sym.pubOf sk))}")
     | none => (st, "err:privkey")
+  | "procs" => if o.nat "n" ≤ 64 then (st, "ok") else (st, "bad-op")   -- host parallelism: no part of the model
   | _ => (st, "bad-op")
 
 end Drv.C19
